@@ -4,6 +4,7 @@ import Cuke.Model.SchedLts
 import Cuke.Lemmas.SchedInv
 import Cuke.Props.C07
 import Cuke.Props.C05
+import Cuke.Lemmas.SchedSpin
 /-!
 # C06 — Never more scenarios in flight than the concurrency limit
 Model: `Cuke.getBatch`, `Cuke.Slots.{ask,onDispatch,onConsume}`, `Cuke.SCfg.limit` and their use in the
@@ -233,5 +234,42 @@ example : Cuke.SchedOrd.Clean0 (accept { Cuke.C05.rcfg with builderConc := some 
       | .get2 t (.cont (some 2)) g s r => .get2 t (.cont (some 1)) g s r
       | .disp n (.cont (some 1)) => .disp n (.cont (some 0))
       | l => l))) = true := by decide +kernel
+
+/-! ## User code (whole runs; Lemmas/SchedSpin.lean) -/
+
+open Cuke.SchedInv Cuke.SchedSpin in
+/-- **User code of no more than `limit` scenarios is in progress.** In every log replayed without a disagreement, at
+    every moment at which user code — a step, a hook, `World::new` — is entered, `execute` is awaiting its scenarios,
+    the attempt the code belongs to is one of the attempts in flight, and at most `limit` attempts are in flight. (User
+    code runs between such an entry and the matching exit, which the acceptor accepts under the same condition.) -/
+theorem lts_user_code_within_limit (c : SCfg) (pre : List Label) (sc att t k : Nat) (hk : c.limit = some k)
+    (hc : SchedOrd.Clean0 (accept c (pre ++ [.cbIn sc att t])) = true) :
+    (accept c pre).phase = .selecting ∧ (∃ e ∈ (accept c pre).running, e.key.scen = sc ∧ attOf e = att) ∧
+    (accept c pre).running.length ≤ k := by
+  have hstep : accept c (pre ++ [.cbIn sc att t]) = stepL c (accept c pre) (.cbIn sc att t) := by
+    simp [accept, List.foldl_append]
+  rw [hstep] at hc
+  have hc0 : SchedOrd.Clean0 (accept c pre) = true := SchedOrd.clean0_step_mono c _ _ hc
+  obtain ⟨hp, hex⟩ := cbIn_clean c _ sc att t (by simpa [SchedOrd.Clean0] using hc0) (by simpa [SchedOrd.Clean0] using hc)
+  have hlim := lts_inflight_le_limit c pre k hk (SchedOrd.clean0_all _ hc0).1 pre [] (by simp)
+  exact ⟨hp, hex, by omega⟩
+
+/-- the same for the moment user code is left -/
+theorem lts_user_code_exit_in_flight (c : SCfg) (pre : List Label) (sc att t : Nat)
+    (hc : SchedOrd.Clean0 (accept c (pre ++ [.cbOut sc att t])) = true) :
+    (accept c pre).phase = .selecting ∧ ∃ e ∈ (accept c pre).running, e.key.scen = sc ∧ SchedSpin.attOf e = att := by
+  have hstep : accept c (pre ++ [.cbOut sc att t]) = stepL c (accept c pre) (.cbOut sc att t) := by
+    simp [accept, List.foldl_append]
+  rw [hstep] at hc
+  have hc0 : SchedOrd.Clean0 (accept c pre) = true := SchedOrd.clean0_step_mono c _ _ hc
+  exact SchedSpin.cbOut_clean c _ sc att t (by simpa [SchedOrd.Clean0] using hc0) (by simpa [SchedOrd.Clean0] using hc)
+
+/-- non-vacuity (the run of `C10.hlog`): user code of the attempt in flight is accepted; user code of a scenario that is
+    not in flight, or entered while `execute` is not awaiting its scenarios, is a disagreement -/
+example :
+    SchedOrd.Clean0 (accept Cuke.C10.hcfg (Cuke.C10.hlog.take 12 ++ [.cbIn 1 0 5, .cbOut 1 0 6])) = true ∧
+    SchedOrd.Clean0 (accept Cuke.C10.hcfg (Cuke.C10.hlog.take 12 ++ [.cbIn 2 0 5])) = false ∧
+    SchedOrd.Clean0 (accept Cuke.C10.hcfg (Cuke.C10.hlog.take 10 ++ [.cbIn 1 0 5])) = false := by
+  decide +kernel
 
 end Cuke.C06
